@@ -86,7 +86,7 @@ func genCfg(t *rapid.T, p genProfile) simCfg {
 	}
 	vcs := p.valChange
 	if len(vcs) == 0 {
-		vcs = []int{0, 0, 1, 2, 3}
+		vcs = []int{0, 0, 1, 2, 3, 4}
 	}
 	var f uint32
 	if p.fOnly {
